@@ -479,6 +479,51 @@ def cc_ef2(EA o):
 
 def cc_epair(EA o, EA p):
     return (c_ef(o), c_ef(p), o.g(), p.g())
+
+# third family: overrides that WIDEN the signature with optional arguments at different depths (every ancestor's vtable
+# slot must be re-pointed by the most derived class through a forwarding wrapper)
+cdef class WA:
+    cpdef f(self, x):
+        return "WA.f"
+    cpdef g(self):
+        return "WA.g"
+
+cdef class WB(WA):
+    cpdef f(self, x, y=0):
+        return "WB.f"
+
+cdef class WC(WB):
+    cpdef f(self, x, y=0):
+        return "WC.f"
+    cpdef g(self, z=0):
+        return "WC.g"
+
+cdef class WD(WC):
+    cpdef f(self, x, y=0, z=0):
+        return "WD.f"
+    cpdef g(self, z=0):
+        return "WD.g"
+
+cdef object c_wf(WA o):
+    return o.f(1)
+
+def cc_wf(WA o):
+    return c_wf(o)
+
+def cc_wf2(WA o):
+    return o.f(2)
+
+def cc_wg(WA o):
+    return o.g()
+
+def cc_wfb(WA o):
+    # the same instance through a reference typed as the middle class (when it is one)
+    if isinstance(o, WB):
+        return (<WB> o).f(1)
+    return o.f(1)
+
+def cc_wpair(WA o, WA p):
+    return (c_wf(o), c_wf(p), o.g(), p.g())
 '''
 
 METHODS = ["f", "g", "k"]
@@ -499,17 +544,18 @@ def make_world(mod, rng_choices):
 
 
 def gen_history_c27(rng, maxlen):
-    world = {"base": rng.choice(["A", "B", "C", "A", "B", "C", "EA", "EB"])}
+    world = {"base": rng.choice(["A", "B", "C", "A", "B", "C", "EA", "EB", "WA", "WB", "WC", "WD", "WC", "WD"])}
     ops = []
     counter = [0]
     n = rng.randint(2, maxlen)
     insts = ["x", "p1", "p2", "p3", "p3b", "s1", "s2"]
     efam = world["base"].startswith("E")
+    wfam = world["base"].startswith("W")
     dict_insts = ["p1", "p2", "p3", "p3b"] + (["x", "x", "s1"] if efam else [])     # instances that have a __dict__
     for _ in range(n):
         r = rng.random()
         if r < 0.42:
-            ops.append(["call", rng.choice(insts), rng.choice(METHODS), rng.choice(["c", "c2", "py", "c"])])
+            ops.append(["call", rng.choice(insts), rng.choice(METHODS), rng.choice(["c", "c2", "py", "c"] + (["c3"] if wfam else []))])
         elif r < 0.66:
             counter[0] += 1
             ops.append(["set", rng.choice(["P1", "P2", "P3", "S1", "S2"]), rng.choice(METHODS), counter[0]])
@@ -536,13 +582,17 @@ def run_history_c27(mod, h):
         k = op[0]
         try:
             efam = h["world"]["base"].startswith("E")
-            if op[0] in ("call", "set", "del", "iset", "idel") and "k" in op[1:4] and (h["world"]["base"] == "A" or efam):
+            wfam = h["world"]["base"].startswith("W")
+            if op[0] in ("call", "set", "del", "iset", "idel") and "k" in op[1:4] and (h["world"]["base"] == "A" or efam or wfam):
                 continue        # k is cdef-only in A (and absent in the Exception-based family): not part of the Python-visible protocol there
             if k == "call":
                 o = inst[op[1]]
-                expected = getattr(o, op[2])()          # what Python attribute lookup selects, evaluated by CPython itself
+                # what Python attribute lookup selects, evaluated by CPython itself
+                expected = getattr(o, op[2])(1) if (wfam and op[2] == "f") else getattr(o, op[2])()
                 if op[3] == "py":
                     got = expected
+                elif wfam:
+                    got = getattr(mod, {"f": {"c2": "cc_wf2", "c3": "cc_wfb"}.get(op[3], "cc_wf"), "g": "cc_wg"}[op[2]])(o)
                 elif efam:
                     got = getattr(mod, {"f": "cc_ef2" if op[3] == "c2" else "cc_ef", "g": "cc_eg"}[op[2]])(o)
                 elif op[3] == "c2" and op[2] == "f":
@@ -557,8 +607,8 @@ def run_history_c27(mod, h):
                 out.append(["call", op[1], op[2], op[3], expected, got, stale])
             elif k == "pair":
                 o, p = inst[op[1]], inst[op[2]]
-                expected = (o.f(), p.f(), o.g(), p.g())
-                got = (mod.cc_epair if h["world"]["base"].startswith("E") else mod.cc_pair)(o, p)
+                expected = (o.f(1), p.f(1), o.g(), p.g()) if wfam else (o.f(), p.f(), o.g(), p.g())
+                got = (mod.cc_wpair if wfam else mod.cc_epair if efam else mod.cc_pair)(o, p)
                 keys = [(type(o).__name__, "f"), (type(p).__name__, "f"), (type(o).__name__, "g"), (type(p).__name__, "g")]
                 stale = all(e == g or g in past.get(kk, ()) for e, g, kk in zip(expected, got, keys))
                 for e, kk in zip(expected, keys):
@@ -566,13 +616,13 @@ def run_history_c27(mod, h):
                 out.append(["pair", op[1], op[2], list(expected), list(got), stale])
             elif k == "set":
                 tag = "%s.%s#%d" % (op[1], op[2], op[3])
-                setattr(classes[op[1]], op[2], (lambda t: (lambda self: t))(tag))
+                setattr(classes[op[1]], op[2], (lambda t: (lambda self, *a: t))(tag))
             elif k == "del":
                 if op[2] in classes[op[1]].__dict__:
                     delattr(classes[op[1]], op[2])
             elif k == "iset":
                 tag = "inst:%s.%s#%d" % (op[1], op[2], op[3])
-                setattr(inst[op[1]], op[2], (lambda t: (lambda: t))(tag))
+                setattr(inst[op[1]], op[2], (lambda t: (lambda *a: t))(tag))
             elif k == "idel":
                 if op[2] in inst[op[1]].__dict__:
                     delattr(inst[op[1]], op[2])
